@@ -132,7 +132,7 @@ class Alphabet:
     """which choices exist and what each one weighs (the base weight of every statement is 1)"""
 
     def __init__(self, name, forms, flags, bodyargs=(0, 1, 2), named=True, cb_modes=("plain", "cap"), loops=True,
-                 blocks=True, nested=True, form_cost=None, flag_cost=0, maxlen=3):
+                 blocks=True, nested=True, form_cost=None, flag_cost=0, ba_cost=(0, 0, 0), nested_cost=0, maxlen=3):
         self.name = name
         self.forms = tuple(forms)
         self.flags = tuple(flags)
@@ -144,6 +144,8 @@ class Alphabet:
         self.nested = nested
         self.form_cost = form_cost or {}
         self.flag_cost = flag_cost
+        self.ba_cost = tuple(ba_cost)
+        self.nested_cost = nested_cost
         self.maxlen = maxlen
         self._memo = {}
 
@@ -198,6 +200,9 @@ def gen_stmt(A, ctx, w):
                 if left < 0:
                     continue
                 for pl in placements:
+                    left = w - 1 - fc - A.cost_flags(fl) - (A.nested_cost if pl == "nested" else 0)
+                    if left < 0:
+                        continue
                     if form in EXPR_FORMS:
                         cctx = (depth - 1, True, (False, 0, False), False, False)
                         for cb in gen_seq(A, cctx, left):
@@ -205,7 +210,7 @@ def gen_stmt(A, ctx, w):
                     else:
                         for ba in A.bodyargs:
                             for named in ((False, True) if A.named else (False,)):
-                                l2 = left - (1 if named else 0)
+                                l2 = left - (1 if named else 0) - A.ba_cost[ba]
                                 if l2 < 0:
                                     continue
                                 cctx = (depth - 1, True, (True, ba, named), False, False)
